@@ -187,29 +187,58 @@ fn client_view(socks: bool, raw: &[u8]) -> Result<&[u8], String> {
     Ok(&raw[h.data_at..])
 }
 
-fn satisfied(log: &Log, socks: bool, from: SocketAddr, want: &[u8], seq: usize) -> bool {
+/// Has exchange `seq` been answered? Some(true): the expected reply is there; Some(false):
+/// something else arrived from the entry point since the request went out (the oracle will
+/// judge it; no point in retransmitting); None: nothing yet.
+fn answered(log: &Log, socks: bool, from: SocketAddr, want: &[u8], seq: usize, base: usize, earlier: &[Vec<u8>]) -> Option<bool> {
     let g = lk(log);
-    let n = g.iter().filter(|(src, raw)| *src == from && client_view(socks, raw).is_ok_and(|p| p == want)).count();
+    let mut n = 0usize;
+    let mut wrong = false;
+    for (idx, (src, raw)) in g.iter().enumerate() {
+        if *src != from {
+            // the expected reply showing up from another address is an answer too (a wrong one)
+            if idx >= base && !want.is_empty() && client_view(socks, raw).is_ok_and(|p| p == want) {
+                wrong = true;
+            }
+            continue;
+        }
+        match client_view(socks, raw) {
+            Ok(p) if p == want => n += 1,
+            Ok(p) if earlier.iter().any(|e| e == p) => {}
+            _ => wrong |= idx >= base,
+        }
+    }
     // empty payloads carry no sequence number: the n-th exchange needs the n-th empty reply
-    if want.is_empty() { n > seq } else { n > 0 }
+    if (want.is_empty() && n > seq) || (!want.is_empty() && n > 0) {
+        Some(true)
+    } else if wrong {
+        Some(false)
+    } else {
+        None
+    }
 }
 
 struct LegResult {
     sent: u64,
     retrans: u64,
+    /// exchanges that got an answer (right or wrong)
     completed: usize,
+    /// ... of which the answer was not the expected reply
+    wrong: usize,
 }
 
 #[allow(clippy::too_many_arguments)]
 async fn run_leg(leg: usize, case: UdpCase, sock: Arc<UdpSocket>, log: Log, note: Arc<Notify>, entry: SocketAddr, target: SocketAddr, domain: Option<String>, short: bool) -> LegResult {
     let socks = case.kind.socks();
-    let mut res = LegResult { sent: 0, retrans: 0, completed: 0 };
+    let mut res = LegResult { sent: 0, retrans: 0, completed: 0, wrong: 0 };
+    let mut earlier: Vec<Vec<u8>> = Vec::new();
     let waits = if short { WAITS_SHORT_MS } else { WAITS_MS };
     for seq in 0..EXCHANGES {
         let req = request(case.size, leg, seq);
         let want = reply_of(&req);
         let wire = if socks { proto::build_udp_request(target, domain.as_deref(), &req) } else { req.clone() };
-        let mut ok = false;
+        let mut ok = None;
+        let base = lk(&log).len();
         for (attempt, w) in waits.iter().enumerate() {
             if sock.send_to(&wire, entry).await.is_ok() {
                 res.sent += 1;
@@ -220,8 +249,8 @@ async fn run_leg(leg: usize, case: UdpCase, sock: Arc<UdpSocket>, log: Log, note
             let until = Instant::now() + Duration::from_millis(*w);
             loop {
                 let notified = note.notified();
-                if satisfied(&log, socks, entry, &want, seq) {
-                    ok = true;
+                ok = answered(&log, socks, entry, &want, seq, base, &earlier);
+                if ok.is_some() {
                     break;
                 }
                 let now = Instant::now();
@@ -230,13 +259,16 @@ async fn run_leg(leg: usize, case: UdpCase, sock: Arc<UdpSocket>, log: Log, note
                 }
                 let _ = tokio::time::timeout(until - now, notified).await;
             }
-            if ok {
+            if ok.is_some() {
                 break;
             }
         }
-        if !ok {
-            return res;
+        match ok {
+            None => return res,
+            Some(true) => {}
+            Some(false) => res.wrong += 1,
         }
+        earlier.push(want);
         res.completed += 1;
         tokio::task::yield_now().await;
     }
@@ -432,6 +464,7 @@ pub async fn run_udp(envr: &Env, case: &UdpCase, deadline_s: u64, short_waits: b
     // ---- oracle: what every local socket received
     let mut completed: Vec<usize> = Vec::new();
     let mut recv_per_leg = vec![0u64; legs.len()];
+    let mut wrong_answers = 0usize;
     for (si, log) in logs.iter().enumerate() {
         let entries_of_socket: Vec<(usize, usize)> = legs.iter().enumerate().filter(|(_, (s, _))| *s == si).map(|(l, (_, e))| (l, *e)).collect();
         for (src, raw) in lk(log).iter() {
@@ -517,6 +550,7 @@ pub async fn run_udp(envr: &Env, case: &UdpCase, deadline_s: u64, short_waits: b
             push(format!("udp.reply.unsolicited.{fam}"), format!("leg {l} sent {} datagrams but received {} from its entry point", r.sent, recv_per_leg[l]), false);
         }
         stats.duplicates += recv_per_leg[l].saturating_sub(r.completed as u64);
+        wrong_answers += r.wrong;
         if r.completed < EXCHANGES {
             let at_target = tl.iter().filter(|(_, d)| *d == request(case.size, l, r.completed)).count();
             push(
@@ -539,6 +573,10 @@ pub async fn run_udp(envr: &Env, case: &UdpCase, deadline_s: u64, short_waits: b
     let mut keys: Vec<String> = failures.iter().map(|f| f.key.clone()).collect();
     keys.sort();
     keys.dedup();
+    if wrong_answers > 0 && keys.is_empty() {
+        // cannot happen: every wrong answer is in a log and the log is judged datagram by datagram
+        failures.push(Failure { key: "machinery".into(), desc: format!("{lab}: {wrong_answers} exchange(s) were answered wrongly but the oracle flagged nothing"), deadline: false });
+    }
     UdpOutcome { obs: json!({"failure_keys": keys, "completed": completed}), failures, port_race, stats, wall: t0.elapsed() }
 }
 
